@@ -525,12 +525,28 @@ class TaskShuffle(SimpleShuffle):
 class DiskShuffle(SimpleShuffle):
     """Disk-based shuffle implementation"""
 
+    # partd concatenates the pieces of an output partition in the order in which
+    # the tasks happened to append them.  Tag every row with the number of its
+    # input partition so that ``_collect`` can restore the input order (which
+    # the task-based shuffle preserves and order-dependent reductions need).
+    _order_column = "__disk_shuffle_input_partition__"
+
     @staticmethod
-    def _shuffle_group(df, col, _filter, p):
+    def _shuffle_group(df, col, _filter, p, i):
         with ensure_cleanup_on_exception(p):
-            g = df.groupby(col)
-            d = {i: g.get_group(i) for i in g.groups if i in _filter}
+            g = df.assign(**{DiskShuffle._order_column: np.int32(i)}).groupby(col)
+            d = {k: g.get_group(k) for k in g.groups if k in _filter}
             p.append(d, fsync=True)
+
+    @staticmethod
+    def _collect(p, part, meta, barrier_token):
+        res = collect(p, part, None, barrier_token)
+        if res is None:
+            return meta
+        order = res.pop(DiskShuffle._order_column)
+        if not order.is_monotonic_increasing:
+            res = res.iloc[order.argsort(kind="stable")]
+        return res
 
     def _layer(self):
         from dask.dataframe.dispatch import partd_encode_dispatch
@@ -547,7 +563,7 @@ class DiskShuffle(SimpleShuffle):
         # Partition data on disk
         name = "shuffle-partition-" + always_new_token
         dsk2 = {
-            (name, i): (self._shuffle_group, key, column, self._partitions, p)
+            (name, i): (self._shuffle_group, key, column, self._partitions, p, i)
             for i, key in enumerate(df.__dask_keys__())
         }
 
@@ -557,7 +573,7 @@ class DiskShuffle(SimpleShuffle):
 
         # Collect groups
         dsk4 = {
-            (self._name, j): (collect, p, k, df._meta, barrier_token)
+            (self._name, j): (self._collect, p, k, df._meta, barrier_token)
             for j, k in enumerate(self._partitions)
         }
 
